@@ -1,7 +1,368 @@
 package main
 
-import "fmt"
+import (
+	"encoding/json"
+	"fmt"
+	"go/ast"
+	"go/format"
+	"go/token"
+	"go/types"
+	"os"
+	"path/filepath"
+	"strconv"
+	"strings"
+
+	"golang.org/x/tools/go/ast/astutil"
+	"golang.org/x/tools/go/packages"
+)
+
+// Access probes (DESIGN.md section 5, transformation 3). Every addressable
+// selection of a struct field, every slice/array element expression and every
+// whole-struct dereference in the listed packages becomes
+//
+//	(*vacc.R(&x.f, site))           in read position
+//	*vacc.W(&x.f, site) = v         on the left of =, op=, ++ and --
+//
+// and map reads / writes / delete / range go through vacc.MR(m) / vacc.MW(m).
+// The wrappers are identity functions evaluated exactly where the original
+// expression was; they report (thread, address range, read|write, site) to the
+// scheduler shim. Fields of lock types and operands of & are left alone.
+
+const vaccPath = shimBase + "vacc"
+
+type site struct {
+	ID   int    `json:"id"`
+	Pos  string `json:"pos"`
+	Expr string `json:"expr"`
+	Kind string `json:"kind"`
+}
+
+type action struct {
+	kind string // "r", "w", "skip", "mr", "mw", "star-r", "star-w"
+}
 
 func instrument(dir string, pkgs []string) (int, error) {
-	return 0, fmt.Errorf("access probes not built yet")
+	abs, err := filepath.Abs(dir)
+	if err != nil {
+		return 0, err
+	}
+	var pats []string
+	for _, p := range pkgs {
+		p = strings.TrimSpace(p)
+		if p == "" {
+			continue
+		}
+		pats = append(pats, "./"+strings.TrimPrefix(p, "./"))
+	}
+	cfg := &packages.Config{
+		Mode: packages.NeedName | packages.NeedFiles | packages.NeedCompiledGoFiles | packages.NeedSyntax |
+			packages.NeedTypes | packages.NeedTypesInfo | packages.NeedImports | packages.NeedDeps,
+		Dir:   abs,
+		Env:   append(os.Environ(), "GOFLAGS=-mod=mod", "GOPROXY=off", "GOSUMDB=off", "GOTOOLCHAIN=local"),
+		Tests: false,
+	}
+	loaded, err := packages.Load(cfg, pats...)
+	if err != nil {
+		return 0, err
+	}
+	if packages.PrintErrors(loaded) > 0 {
+		return 0, fmt.Errorf("the scratch copy does not type-check")
+	}
+	var sites []site
+	for _, pkg := range loaded {
+		modPath := ""
+		if pkg.Module != nil {
+			modPath = pkg.Module.Path
+		}
+		_ = modPath
+		for i, f := range pkg.Syntax {
+			name := pkg.CompiledGoFiles[i]
+			if strings.HasSuffix(name, "_test.go") || strings.Contains(name, "/zzshim/") {
+				continue
+			}
+			n := rewriteFile(pkg, f, &sites)
+			if n == 0 {
+				continue
+			}
+			astutil.AddNamedImport(pkg.Fset, f, "vacc", vaccPath)
+			out, err := os.Create(name)
+			if err != nil {
+				return 0, err
+			}
+			if err := format.Node(out, pkg.Fset, f); err != nil {
+				out.Close()
+				return 0, fmt.Errorf("%s: %v", name, err)
+			}
+			out.Close()
+		}
+	}
+	b, _ := json.MarshalIndent(sites, "", " ")
+	if err := os.WriteFile(filepath.Join(abs, "zzshim", "sites.json"), b, 0o644); err != nil {
+		return 0, err
+	}
+	return len(sites), nil
+}
+
+func isLockType(t types.Type) bool {
+	for {
+		if p, ok := t.(*types.Pointer); ok {
+			t = p.Elem()
+			continue
+		}
+		break
+	}
+	n, ok := t.(*types.Named)
+	if !ok {
+		return false
+	}
+	if n.Obj().Pkg() == nil {
+		return false
+	}
+	p := n.Obj().Pkg().Path()
+	if p == "sync" || strings.HasSuffix(p, "/zzshim/vsync") || p == "sync/atomic" {
+		return true
+	}
+	return false
+}
+
+func isStructVal(t types.Type) bool {
+	if t == nil {
+		return false
+	}
+	_, ok := t.Underlying().(*types.Struct)
+	return ok
+}
+
+func isMap(t types.Type) bool {
+	if t == nil {
+		return false
+	}
+	_, ok := t.Underlying().(*types.Map)
+	return ok
+}
+
+func rewriteFile(pkg *packages.Package, f *ast.File, sites *[]site) int {
+	info := pkg.TypesInfo
+	fset := pkg.Fset
+	acts := map[ast.Node]string{}
+	count := 0
+
+	writeCtx := func(c *astutil.Cursor) bool {
+		switch p := c.Parent().(type) {
+		case *ast.AssignStmt:
+			return c.Name() == "Lhs" && p.Tok != token.DEFINE
+		case *ast.IncDecStmt:
+			return true
+		}
+		return false
+	}
+	addrCtx := func(c *astutil.Cursor) bool {
+		if u, ok := c.Parent().(*ast.UnaryExpr); ok && u.Op == token.AND {
+			return true
+		}
+		return false
+	}
+	// declared inside this module (never a field of a standard-library struct)
+	localField := func(sel *ast.SelectorExpr) bool {
+		s, ok := info.Selections[sel]
+		if !ok || s.Kind() != types.FieldVal {
+			return false
+		}
+		o := s.Obj()
+		if o.Pkg() == nil || strings.Contains(o.Pkg().Path(), "/zzshim/") {
+			return false
+		}
+		return strings.HasPrefix(o.Pkg().Path(), "github.com/esimov/gogu")
+	}
+
+	pre := func(c *astutil.Cursor) bool {
+		switch n := c.Node().(type) {
+		case *ast.FuncDecl:
+			if n.Body == nil {
+				return false
+			}
+		case *ast.SelectorExpr:
+			if !localField(n) {
+				return true
+			}
+			tv, ok := info.Types[n]
+			if !ok || !tv.Addressable() || isLockType(tv.Type) {
+				return true
+			}
+			if addrCtx(c) {
+				return true
+			}
+			// x.f.g / x.f[i] / x.f.M(): x.f is only part of an address computation when it is a struct or array value
+			if isStructVal(tv.Type) {
+				if _, ok := c.Parent().(*ast.SelectorExpr); ok && c.Name() == "X" {
+					return true
+				}
+			}
+			if _, isArr := tv.Type.Underlying().(*types.Array); isArr {
+				return true
+			}
+			if rs, ok := c.Parent().(*ast.RangeStmt); ok && (c.Name() == "Key" || c.Name() == "Value") {
+				_ = rs
+				return true
+			}
+			if writeCtx(c) {
+				acts[n] = "w"
+			} else {
+				acts[n] = "r"
+			}
+		case *ast.IndexExpr:
+			tv, ok := info.Types[n.X]
+			if !ok || tv.IsType() || tv.Type == nil {
+				return true
+			}
+			if isMap(tv.Type) {
+				// only maps reached through a field of ours (shared state); locals are private
+				if !mentionsLocalField(n.X, localField) {
+					return true
+				}
+				if writeCtx(c) {
+					acts[n] = "mw"
+				} else {
+					acts[n] = "mr"
+				}
+				return true
+			}
+			if _, isSlice := tv.Type.Underlying().(*types.Slice); !isSlice {
+				return true
+			}
+			etv, ok := info.Types[n]
+			if !ok || !etv.Addressable() || addrCtx(c) {
+				return true
+			}
+			if !mentionsLocalField(n.X, localField) {
+				return true // a local slice (parameter, fresh result): not shared state
+			}
+			if writeCtx(c) {
+				acts[n] = "w"
+			} else {
+				acts[n] = "r"
+			}
+		case *ast.StarExpr:
+			tv, ok := info.Types[n]
+			if !ok || tv.IsType() || !isStructVal(tv.Type) {
+				return true
+			}
+			if nn, ok := tv.Type.(*types.Named); ok {
+				if nn.Obj().Pkg() == nil || !strings.HasPrefix(nn.Obj().Pkg().Path(), "github.com/esimov/gogu") {
+					return true
+				}
+			} else {
+				return true
+			}
+			if addrCtx(c) {
+				return true
+			}
+			if _, ok := c.Parent().(*ast.SelectorExpr); ok && c.Name() == "X" {
+				return true
+			}
+			if writeCtx(c) {
+				acts[n] = "star-w"
+			} else {
+				acts[n] = "star-r"
+			}
+		case *ast.RangeStmt:
+			if tv, ok := info.Types[n.X]; ok && isMap(tv.Type) && mentionsLocalField(n.X, localField) {
+				acts[n] = "range-m"
+			}
+		case *ast.CallExpr:
+			if id, ok := n.Fun.(*ast.Ident); ok && len(n.Args) >= 1 {
+				if b, ok := info.Uses[id].(*types.Builtin); ok {
+					if tv, ok2 := info.Types[n.Args[0]]; ok2 && isMap(tv.Type) && mentionsLocalField(n.Args[0], localField) {
+						switch b.Name() {
+						case "delete":
+							acts[n] = "delete-m"
+						case "len":
+							acts[n] = "len-m"
+						}
+					}
+				}
+			}
+		}
+		return true
+	}
+
+	newSite := func(n ast.Node, kind string) *ast.BasicLit {
+		count++
+		id := len(*sites) + 1
+		var sb strings.Builder
+		format.Node(&sb, fset, n)
+		p := fset.Position(n.Pos())
+		*sites = append(*sites, site{ID: id, Pos: fmt.Sprintf("%s:%d:%d", filepath.Base(filepath.Dir(p.Filename))+"/"+filepath.Base(p.Filename), p.Line, p.Column), Expr: sb.String(), Kind: kind})
+		return &ast.BasicLit{Kind: token.INT, Value: strconv.Itoa(id)}
+	}
+	call := func(fn string, args ...ast.Expr) *ast.CallExpr {
+		return &ast.CallExpr{Fun: &ast.SelectorExpr{X: ast.NewIdent("vacc"), Sel: ast.NewIdent(fn)}, Args: args}
+	}
+
+	post := func(c *astutil.Cursor) bool {
+		n := c.Node()
+		a, ok := acts[n]
+		if !ok {
+			return true
+		}
+		switch a {
+		case "r", "w":
+			e := n.(ast.Expr)
+			fn := "R"
+			if a == "w" {
+				fn = "W"
+			}
+			s := newSite(n, a)
+			repl := &ast.StarExpr{X: call(fn, &ast.UnaryExpr{Op: token.AND, X: e}, s)}
+			if a == "w" {
+				c.Replace(repl)
+			} else {
+				c.Replace(&ast.ParenExpr{X: repl})
+			}
+		case "star-r", "star-w":
+			st := n.(*ast.StarExpr)
+			fn := "R"
+			if a == "star-w" {
+				fn = "W"
+			}
+			s := newSite(n, a)
+			repl := &ast.StarExpr{X: call(fn, st.X, s)}
+			if a == "star-w" {
+				c.Replace(repl)
+			} else {
+				c.Replace(&ast.ParenExpr{X: repl})
+			}
+		case "mr", "mw":
+			ix := n.(*ast.IndexExpr)
+			fn := "MR"
+			if a == "mw" {
+				fn = "MW"
+			}
+			ix.X = call(fn, ix.X, newSite(n, a))
+		case "range-m":
+			r := n.(*ast.RangeStmt)
+			r.X = call("MR", r.X, newSite(r.X, "mr"))
+		case "delete-m":
+			ce := n.(*ast.CallExpr)
+			ce.Args[0] = call("MW", ce.Args[0], newSite(n, "mw"))
+		case "len-m":
+			ce := n.(*ast.CallExpr)
+			ce.Args[0] = call("MR", ce.Args[0], newSite(n, "mr"))
+		}
+		return true
+	}
+	astutil.Apply(f, pre, post)
+	return count
+}
+
+// mentionsLocalField: the expression reaches its value through a field of one of our structs
+func mentionsLocalField(e ast.Expr, localField func(*ast.SelectorExpr) bool) bool {
+	found := false
+	ast.Inspect(e, func(n ast.Node) bool {
+		if s, ok := n.(*ast.SelectorExpr); ok && localField(s) {
+			found = true
+		}
+		return !found
+	})
+	return found
 }
